@@ -143,46 +143,80 @@ Section Retry.
   Lemma clean_benv_chunks c : be_chunks (clean_benv k c) = clean_chunks c.
   Proof. reflexivity. Qed.
 
+  Lemma remove_key_idem {V} d (l : list (N * V)) : remove_key N.eqb d (remove_key N.eqb d l) = remove_key N.eqb d l.
+  Proof.
+    unfold remove_key. induction l as [|[d' v] l IH]; cbn [filter fst]; [reflexivity|].
+    destruct (negb (N.eqb d d')) eqn:E; cbn [filter fst]; [rewrite E, IH; reflexivity|exact IH].
+  Qed.
+  Lemma remove_key_set_key {V} d (x : V) l : remove_key N.eqb d (set_key N.eqb d x l) = remove_key N.eqb d l.
+  Proof.
+    unfold set_key. unfold remove_key at 1. cbn [filter fst]. rewrite N.eqb_refl. cbn [negb].
+    apply remove_key_idem.
+  Qed.
+  Lemma put_dl_remove d x st : remove_key N.eqb d (s_dl (put_dl d x st)) = remove_key N.eqb d (s_dl st).
+  Proof.
+    unfold put_dl. destruct (d_file x), (d_parts x); cbn [s_dl set_dl drop_dl]; auto using remove_key_set_key, remove_key_idem.
+  Qed.
+
+  Lemma download_from_clean st d old :
+    H (content d) = d -> Forall (part_sane (content d)) (d_parts old) ->
+    exists st' r tr, download_from H true k st d (clean_benv k (content d)) old = (st', r, tr) /\
+      match r with
+      | DHit => False
+      | DOk => s_dl st' = remove_key N.eqb d (s_dl st) /\ exists c, s_blobs st' = set_key N.eqb d c (s_blobs st) /\ H c = d
+      | DErr => s_dl st' = remove_key N.eqb d (s_dl st) /\ s_blobs st' = s_blobs st /\ d_parts old <> []
+      end /\ s_man st' = s_man st.
+  Proof.
+    intros Hd Hsane. unfold download_from.
+    set (c := content d) in *.
+    destruct (d_parts old) as [|p ps] eqn:Hps.
+    - (* no records: HEAD, fresh layout *)
+      cbn [be_head clean_benv be_direct negb].
+      pose proof (layout_tiles k (zlen c) Hk ltac:(unfold zlen; lia)) as Ht.
+      destruct (run_parts_fresh c _ (layout k (zlen c)) 0 (resize (Z.to_nat (zlen c)) match d_file old with Some f => f | None => [] end) Ht) as [ps' [rq Hr]];
+        [lia|rewrite resize_length; unfold zlen; lia|reflexivity|].
+      rewrite clean_benv_chunks, Hr. cbn [negb andb].
+      rewrite Hd, N.eqb_refl. cbn [negb].
+      eexists _, DOk, _. split; [reflexivity|]. split; [|reflexivity]. split; [reflexivity|].
+      exists c. split; [reflexivity|exact Hd].
+    - (* resume from the records *)
+      cbn [be_direct clean_benv negb].
+      destruct (run_parts_clean_ok c (p :: ps) (resize (Z.to_nat (sum_sizes (p :: ps))) match d_file old with Some f => f | None => [] end) Hsane) as [ps' [d' [rq Hr]]].
+      rewrite clean_benv_chunks, Hr. cbn [negb andb].
+      destruct (N.eqb (H d') d) eqn:Hv; cbn [negb].
+      + eexists _, DOk, _. split; [reflexivity|]. split; [|reflexivity]. split; [reflexivity|].
+        exists d'. split; [reflexivity|]. apply N.eqb_eq, Hv.
+      + eexists _, DErr, _. split; [reflexivity|]. split; [|reflexivity]. repeat split. discriminate.
+  Qed.
+
   Lemma download_blob_clean st d :
     blobs_ok H st -> H (content d) = d -> dl_sane st d ->
     exists st' r tr, download_blob H true k st d (clean_benv k (content d)) = (st', r, tr) /\
       match r with
       | DHit => st' = st
-      | DOk => s_dl st' = remove_key N.eqb d (s_dl st) /\ s_blobs st' = set_key N.eqb d (content d) (s_blobs st) \/
-               s_dl st' = remove_key N.eqb d (s_dl st) /\ exists c, s_blobs st' = set_key N.eqb d c (s_blobs st) /\ H c = d
+      | DOk => s_dl st' = remove_key N.eqb d (s_dl st) /\ exists c, s_blobs st' = set_key N.eqb d c (s_blobs st) /\ H c = d
       | DErr => s_dl st' = remove_key N.eqb d (s_dl st) /\ s_blobs st' = s_blobs st /\ staleb st d = true
       end /\ s_man st' = s_man st.
   Proof.
     intros Hok Hd Hsane. unfold download_blob, dl_sane, staleb in *.
     destruct (lookup N.eqb d (s_blobs st)) as [c0|] eqn:Hb.
     { exists st, DHit, no_trace. repeat split. }
-    set (c := content d) in *.
-    destruct (lookup N.eqb d (s_dl st)) as [x|] eqn:Hx.
-    - destruct (d_parts x) as [|p ps] eqn:Hps.
-      + (* a -partial file without records: HEAD, fresh layout *)
-        cbn [be_head clean_benv be_direct negb].
-        pose proof (layout_tiles k (zlen c) Hk ltac:(unfold zlen; lia)) as Ht.
-        destruct (run_parts_fresh c _ (layout k (zlen c)) 0 (resize (Z.to_nat (zlen c)) match d_file x with Some f => f | None => [] end) Ht) as [ps' [rq Hr]];
-          [lia|rewrite resize_length; unfold zlen; lia|reflexivity|].
-        rewrite clean_benv_chunks, Hr. cbn [negb andb].
-        rewrite Hd, N.eqb_refl. cbn [negb].
-        eexists _, DOk, _. split; [reflexivity|]. split; [|reflexivity]. left. split; reflexivity.
-      + (* resume from the records *)
-        cbn [be_direct clean_benv negb].
-        destruct (run_parts_clean_ok c (p :: ps) (resize (Z.to_nat (sum_sizes (p :: ps))) match d_file x with Some f => f | None => [] end) Hsane) as [ps' [d' [rq Hr]]].
-        rewrite clean_benv_chunks, Hr. cbn [negb andb].
-        destruct (N.eqb (H d') d) eqn:Hv; cbn [negb].
-        * eexists _, DOk, _. split; [reflexivity|]. split; [|reflexivity]. right. split; [reflexivity|].
-          exists d'. split; [reflexivity|]. apply N.eqb_eq, Hv.
-        * eexists _, DErr, _. split; [reflexivity|]. split; [|reflexivity]. repeat split.
-    - (* nothing on disk: HEAD, fresh layout *)
-      cbn [d_parts be_head clean_benv be_direct negb d_file].
-      pose proof (layout_tiles k (zlen c) Hk ltac:(unfold zlen; lia)) as Ht.
-      destruct (run_parts_fresh c _ (layout k (zlen c)) 0 (resize (Z.to_nat (zlen c)) []) Ht) as [ps' [rq Hr]];
-        [lia|rewrite resize_length; unfold zlen; lia|reflexivity|].
-      rewrite clean_benv_chunks, Hr. cbn [negb andb].
-      rewrite Hd, N.eqb_refl. cbn [negb].
-      eexists _, DOk, _. split; [reflexivity|]. split; [|reflexivity]. left. split; reflexivity.
+    set (old := match lookup N.eqb d (s_dl st) with Some x => x | None => mkDl None [] end).
+    assert (Hold : Forall (part_sane (content d)) (d_parts old)).
+    { unfold old. destruct (lookup N.eqb d (s_dl st)); [exact Hsane|constructor]. }
+    destruct (usable old).
+    - destruct (download_from_clean st d old Hd Hold) as [st' [r [tr [Hf [Hr Hm]]]]].
+      exists st', r, tr. split; [exact Hf|]. split; [|exact Hm].
+      destruct r; [contradiction|exact Hr|].
+      destruct Hr as [H1 [H2 H3]]. repeat split; auto.
+      unfold old in H3. destruct (lookup N.eqb d (s_dl st)) as [x|]; [|exfalso; apply H3; reflexivity].
+      destruct (d_parts x); [exfalso; apply H3; reflexivity|reflexivity].
+    - destruct (download_from_clean (put_dl d (mkDl (d_file old) []) st) d (mkDl (d_file old) []) Hd ltac:(constructor)) as [st' [r [tr [Hf [Hr Hm]]]]].
+      destruct (put_dl_blobs d (mkDl (d_file old) []) st) as [Eb Em].
+      exists st', r, tr. split; [exact Hf|]. split; [|congruence].
+      destruct r; [contradiction| |].
+      + destruct Hr as [H1 [c [H2 H3]]]. rewrite put_dl_remove in H1. rewrite Eb in H2. split; [exact H1|]. exists c. split; assumption.
+      + destruct Hr as [_ [_ H3]]. exfalso. apply H3. reflexivity.
   Qed.
 
   (** ** the measure: layers whose download would resume from records *)
@@ -272,7 +306,7 @@ Section Retry.
           { destruct (Hpres ltac:(discriminate)) as [c [Hc1 _]]. unfold staleb. rewrite Hc1. reflexivity. }
           rewrite Hns. destruct (staleb st2 (l_digest l)) eqn:E; [rewrite (Hl2 _ E) in Hns; discriminate|]. exact Hres.
       + (* downloaded *)
-        assert (Hdl : s_dl st1 = remove_key N.eqb (l_digest l) (s_dl st)) by (destruct Hr as [[? _]|[? _]]; assumption).
+        assert (Hdl : s_dl st1 = remove_key N.eqb (l_digest l) (s_dl st)) by (destruct Hr as [? _]; assumption).
         assert (Hbl : forall d' c, lookup N.eqb d' (s_blobs st) = Some c -> exists c', lookup N.eqb d' (s_blobs st1) = Some c').
         { intros d' c Hc. exists c. apply Hg1, Hc. }
         destruct (staleb_after st st1 (l_digest l) Hdl Hbl) as [Hls1 Hns1].
@@ -404,14 +438,11 @@ Section Retry.
 
   Definition truthful_head (d : digest) (e : benv) : Prop := forall t, be_head e = Some t -> t = zlen (content d).
 
-  Lemma download_blob_sane fx st d e : sane st -> truthful_head d e -> sane (fst (fst (download_blob H fx k st d e))).
+  Lemma download_from_sane fx st d e old :
+    sane st -> truthful_head d e -> Forall (part_sane (content d)) (d_parts old) ->
+    sane (fst (fst (download_from H fx k st d e old))).
   Proof.
-    intros Hs Ht. unfold download_blob.
-    destruct (lookup N.eqb d (s_blobs st)); [exact Hs|].
-    pose proof (Hs d) as Hd. unfold dl_sane in Hd.
-    set (old := match lookup N.eqb d (s_dl st) with Some x => x | None => mkDl None [] end).
-    assert (Hold : Forall (part_sane (content d)) (d_parts old)).
-    { unfold old. destruct (lookup N.eqb d (s_dl st)); [exact Hd|constructor]. }
+    intros Hs Ht Hold. unfold download_from.
     assert (Hprep : forall ps total headed,
               match d_parts old with
               | [] => match be_head e with None => None | Some total => Some (layout k total, total, true) end
@@ -431,6 +462,25 @@ Section Retry.
     destruct (fx && negb (N.eqb (H f1) d)); cbn [fst].
     - apply sane_drop_dl, Hs.
     - eapply sane_same_dl; [|apply (sane_drop_dl st d Hs)]. reflexivity.
+  Qed.
+
+  Lemma sane_put_dl st d x : sane st -> Forall (part_sane (content d)) (d_parts x) -> sane (put_dl d x st).
+  Proof.
+    intros Hs Hx. unfold put_dl. destruct (d_file x); [apply sane_set_dl; assumption|].
+    destruct (d_parts x) eqn:E; [apply sane_drop_dl, Hs|apply sane_set_dl; [exact Hs|rewrite E; exact Hx]].
+  Qed.
+
+  Lemma download_blob_sane fx st d e : sane st -> truthful_head d e -> sane (fst (fst (download_blob H fx k st d e))).
+  Proof.
+    intros Hs Ht. unfold download_blob.
+    destruct (lookup N.eqb d (s_blobs st)); [exact Hs|].
+    pose proof (Hs d) as Hd. unfold dl_sane in Hd.
+    set (old := match lookup N.eqb d (s_dl st) with Some x => x | None => mkDl None [] end).
+    assert (Hold : Forall (part_sane (content d)) (d_parts old)).
+    { unfold old. destruct (lookup N.eqb d (s_dl st)); [exact Hd|constructor]. }
+    destruct (usable old).
+    - apply download_from_sane; assumption.
+    - apply download_from_sane; [apply sane_put_dl; [exact Hs|constructor]|exact Ht|constructor].
   Qed.
 
   Fixpoint truthful (ls : list layer) (es : list benv) : Prop :=
